@@ -131,8 +131,8 @@ def run(ctx):
         fo = [x for x in hq.find(ab["body"], lambda x: x.get("k") == "For")]
         sh = [u for u in ups if u[1] == "+=" and u[2].endswith(".base_offset")]
         ok = len(fo) == 1 and aix.canon(fo[0]["iter"]) == "core::slice::iter_mut(self.window)" and len(sh) == 1 and aix.contains(fo[0], sh[0][4]) and \
-            sh[0][3].startswith("core::option::Option::map(core::slice::last(self.window), ") and sh[0][3].endswith("@Option::Some.0") and \
-            ".data" in sh[0][3] and "len" in sh[0][3] and \
+            sh[0][3] in ("core::option::Option::map(core::slice::last(self.window), |..| last.data.len())@Option::Some.0",
+                         "alloc::vec::Vec::len(core::slice::last(self.window)@Option::Some.0.data)") and \
             [p["cond"] for p in aix.path_conditions(sh[0][4]) if p["kind"] in ("if", "arm") and "last(self.window)" in p["cond"]] != []
         ctx.check(ok, RB, "add_data::shift-by-previous-last-length", ab["file"],
                   "every existing entry's base offset grows by the length of the entry that was last so far", observed=[u[:4] for u in sh])
